@@ -57,6 +57,19 @@ def gen_case(rnd, prop, tier):
     if rows is None and rnd.random() < 0.1:
         total = 20000.9
     elim = a_bp.gen_elim(rnd, attrs)      # None / permutation / int mode (stochastic orders drawn from the SimRNG)
+    if isinstance(elim, dict):
+        elim['int'] = rnd.choice([2, 5, 10])
+        if rnd.random() < 0.7 and n >= 4:
+            # int mode only matters where orders differ in cost: chordless cycles over attributes of uneven size
+            sizes = [rnd.choice([2, 2, 3, 4, 6]) for _ in attrs]
+            while int(np.prod(sizes)) > 4096:
+                sizes[rnd.randrange(n)] = 2
+            cliques, kind = gen.gen_cliques(rnd, attrs, kind='cycle', max_width=3)
+            witness = {a: witness[a] % sizes[attrs.index(a)] for a in attrs}
+            pots = []
+            for cl in cliques:
+                shape = [sizes[attrs.index(a)] for a in cl]
+                pots.append(gen.gen_potential(rnd, shape, scale, ninf, [witness[a] for a in cl]))
     pol = rnd.choice(['faithful', 'faithful', 'adv-low', 'adv-high', 'adv-first', 'mixed', 'many-min', 'many-const'])
     rates = {'faithful': {}, 'adv-low': {'nr_lowest': 1.0}, 'adv-high': {'nr_highest': 1.0}, 'adv-first': {'nr_first': 1.0},
              'mixed': {'nr_lowest': 0.3, 'nr_highest': 0.3, 'nr_first': 0.2, 'many_min': 0.2, 'many_const': 0.2},
@@ -130,12 +143,49 @@ def model_state(model):
     return parts
 
 
+def factorisation_violation(model, attrs, sizes, P, tag):
+    """synthetic_data generates column k from P(col_k | parents_k) with parents_k = already generated attributes that share a
+    model clique with col_k, in reverse elimination order.  That scheme realises the model iff the product of those
+    conditionals is the joint; checked here on the explicit joint (what a faithful sampler would converge to)."""
+    order = list(model.elimination_order)[::-1]
+    if sorted(order) != sorted(attrs):
+        return Violation('syn-factorisation', 'syn-factorisation', 'model.elimination_order %s is not a permutation of the attributes (%s)' % (order, tag))
+    cliques = [set(cl) for cl in model.cliques]
+    used = []
+    Q = np.ones(tuple(sizes))
+    for col in order:
+        rel = set()
+        for cl in cliques:
+            if col in cl:
+                rel |= cl
+        parents = [a for a in used if a in rel]
+        scope = parents + [col]
+        M = refmodel.marginal_p(P, attrs, scope)
+        den = M.sum(axis=-1, keepdims=True)
+        with np.errstate(divide='ignore', invalid='ignore'):
+            C = np.where(den > 0, M / den, 0.0)
+        # bring C (axes in `scope` order) to domain order and broadcast
+        kept = [a for a in attrs if a in scope]
+        Cd = np.transpose(C, [scope.index(a) for a in kept]) if len(scope) > 1 else C
+        Q = Q * Cd.reshape([sizes[i] if a in scope else 1 for i, a in enumerate(attrs)])
+        used.append(col)
+    err = float(np.max(np.abs(Q - P)))
+    if err > 1e-9:
+        return Violation('syn-factorisation', 'syn-factorisation', 'the conditionals synthetic_data uses (reverse elimination order %s, parents = generated attributes sharing a model clique) '
+                         'do not multiply to the model\'s joint: max cell difference %.3g of probability (%s)' % (order, err, tag))
+    return None
+
+
 def run_once(mbi, case, model, rows, viol, faults, probes, seqs, tag, key='pots'):
     attrs, sizes, total = case['attrs'], case['sizes'], case['total']
     pots_in = [(cl, np.array(case[key][k], dtype=float).reshape(gen.clique_shape(case, cl))) for k, cl in enumerate(case['cliques'])]
     logp = refmodel.joint_logp(attrs, sizes, pots_in)
     z = refmodel.lse(logp)
     logP = logp - z      # log of the normalised joint
+    fv = factorisation_violation(model, attrs, sizes, np.exp(logP), tag)
+    if fv is not None:
+        viol.append(fv.as_dict())
+        return SimRNG(random.Random(0), {})
     rng = SimRNG(random.Random(case['rng_seed']), case['policy'])
     want_rows = int(total) if rows is None else rows
     try:
@@ -199,7 +249,10 @@ def run_once(mbi, case, model, rows, viol, faults, probes, seqs, tag, key='pots'
         sizes_of = dict(zip(attrs, sizes))
         S, E = rounding_bounds(model, sizes_of)
         if S is None:
-            raise HarnessError('rounding-bound recursion: parents not inside S_j')
+            # the conditionals multiply to the joint only because of these particular potentials (e.g. size-1 attributes), the structural
+            # recursion behind the bound does not apply: the run keeps its row / range / zero-support checks and skips the bound
+            probes['round-bound-not-applicable'] = probes.get('round-bound-not-applicable', 0) + 1
+            return rng
         if any(ev['kind'] == 'choice' and not ev['replace'] and ev['m'] > 0 for ev in rng.events):
             probes['round-top-up'] = probes.get('round-top-up', 0) + 1
         P = np.exp(logP)
